@@ -220,4 +220,37 @@ theorem logicalImm_end_to_end (r : InstRow) (hr : r ∈ instTable.toList) (henc 
     simp only [hfull, Bool.not_false, Bool.true_and]
     simpa [addReg, addImm] using hdesc
 
+/-! ### rows with `negate_imm`: bic / bics / orn / eon with an immediate are and / ands / orr / eor of the inverted immediate -/
+
+/-- the negating row emits exactly what the same row without negation emits for `~imm` -/
+theorem logicalImm_negate_alias (d : BaseLogicalRow) (o0 o1 : Reg) (imm : BitVec 64) (hneg : d.negate_imm ≠ 0) :
+    emitLogicalImm d o0 o1 imm = emitLogicalImm { d with negate_imm := 0 } o0 o1 (~~~imm) := by
+  unfold emitLogicalImm
+  have h1 : (d.negate_imm != 0) = true := by simpa using hneg
+  simp only [h1, if_true, bne_self_eq_false, Bool.false_eq_true, if_false]
+  have e : ∀ m : BitVec 64, (imm ^^^ m) &&& m = ~~~imm &&& m := by intro m; bv_decide
+  by_cases hx : (xOf o0 kWX != 0) = true <;> simp only [hx, if_true, Bool.false_eq_true, if_false, e]
+
+/-- … and the negating rows share the opcode of their positive counterpart: bic ~ and, bics ~ ands, orn ~ orr, eon ~ eor -/
+def negatePartner (name : String) : Option String :=
+  match name with
+  | "bic" => some "and" | "bics" => some "ands" | "orn" => some "orr" | "eon" => some "eor"
+  | _ => none
+
+def logicalNegRowOk (name : String) (d : BaseLogicalRow) : Bool :=
+  match negatePartner name with
+  | none => false
+  | some pn =>
+    instTable.toList.any fun r' => r'.name == pn && r'.enc == encBaseLogical &&
+      (match baseLogical[r'.idx]? with
+       | some d' => d'.immediate_op == d.immediate_op && d'.negate_imm == 0 && d'.shifted_op != d.shifted_op
+       | none => false)
+
+set_option maxRecDepth 1000000 in
+theorem rows_baseLogical_negate_partner :
+    instTable.toList.all (fun r => r.enc != encBaseLogical ||
+      (match baseLogical[r.idx]? with
+       | some d => d.immediate_op == 0 || d.negate_imm == 0 || logicalNegRowOk r.name d
+       | none => false)) = true := by decide +kernel
+
 end AsmjitVerif.C02
